@@ -35,7 +35,7 @@ def _ver(rng):
 
 def generate(rng, tier):
     cases = []
-    n = 300 if tier == "quick" else 6000
+    n = 300 if tier == "quick" else 20000
     for _ in range(n):
         want = rng.choice(["2.2.3", "2.5.5", "2.6.0", "3.0.2", _ver(rng)])
         cases.append({"kind": "v", "have": _ver(rng), "want": want, "family": "version-order"})
@@ -46,7 +46,7 @@ def generate(rng, tier):
           ("open-fault", ["F"]), ("write1-fault", ["E", "F"]), ("read1-fault", ["E", "E", "F"]), ("write2-fault", ["E", "E", "E", "F"]), ("read2-fault", ["E", "E", "E", "E", "F"]),
           ("nick-timeout", ["E", "E", ("L", S.GOOD_VERSION), "E", ("L", "CU,OK"), "E"] + ["E"] * 27),
           ("ebb-second-probe-old", ["E", "E", ("L", "garbage"), "E", ("L", "EBBv13_and_above EB Firmware Version 2.8.1")])]
-    m = 60 if tier == "quick" else 1200
+    m = 60 if tier == "quick" else 4000
     for _ in range(m):
         v = _ver(rng)
         hs2 = hs + [("version:" + v, ["E", "E", ("L", "EBBv13_and_above EB Firmware Version " + v), "E", ("L", "CU,OK"), "E", ("L", "QT,Bot")])]
@@ -59,7 +59,7 @@ def generate(rng, tier):
     hsk = [("good", S.connect_script()), ("old", ["E", "E", ("L", "EBBv13_and_above EB Firmware Version 2.8.1")]),
            ("old-multidigit", ["E", "E", ("L", "EBBv13_and_above EB Firmware Version 2.10.12")]), ("old-late", ["E", "E", "E", "E", ("L", "EBBv13_and_above EB Firmware Version 3.0.1")]),
            ("not-ebb", ["E", "E", ("L", "hello"), "E", ("L", "world")]), ("silent", ["E", "E", "E", "E", "E"]), ("open-fails", ["F"])]
-    reps = 1 if tier == "quick" else 6
+    reps = 1 if tier == "quick" else 15
     for _ in range(reps):
         for n1, h1 in hsk:
             for n2, h2 in [("none", None)] + hsk:
@@ -78,7 +78,7 @@ def generate(rng, tier):
             cases.append({"kind": "h", "calls": [("connect", S.GOOD_PORTS, None), t], "events": list(h1) + S.nominal(t, rng), "family": "refused/%s/%s" % (n1, m)})
     # legacy gates
     gates = [("servo", (500, None)), ("servo", (0, 1)), ("voltage", ()), ("query_nick", ()), ("write_nick", ("Bot",)), ("reboot", ()), ("min_version", ("2.5.5",))]
-    g = 120 if tier == "quick" else 2400
+    g = 120 if tier == "quick" else 8000
     for _ in range(g):
         kind, args = rng.choice(gates)
         k = rng.random()
